@@ -58,6 +58,13 @@ def gen_cases(rng, tier):
             cases.append({"kind": "noop", "spec": gen_third_party(rng, is_fd=True, nsides=ns, max_files=2), "with_source": ws})
     # more files than a catalogue holds, given to both tools: payloads stay identical sector for sector, free sectors included
     cases.append({"kind": "pair", "verbose": False, "sources": [{"arg": "p%03d.d" % k, "content": {"pat": "5a", "len": 1 + 255 * (k % 2)}} for k in range(114)]})
+    # an independent-writer image whose unused sectors are zero-filled (trailing all-zero sectors): saved back with its full length
+    for is_fd in (True, False):
+        sp = gen_third_party(rng, is_fd=is_fd, nsides=4, max_files=2)
+        for sd_ in sp["sides"]:
+            sd_["filler"] = 0x00
+        sp["sides"][3]["files"] = []
+        cases.append({"kind": "noop", "spec": sp})
     # sources named like the archives themselves (kept in another directory): both tools store them all
     cases.append({"kind": "pair", "verbose": True, "sources": [{"arg": "s+/img.sd", "content": {"pat": "53", "len": 700}}, {"arg": "s+/a.dat", "content": {"hex": "41"}}, {"arg": "s+/IMG.FD", "content": {"pat": "46", "len": 2041}}]})
     return cases, {"random": n, "1- and 2-sided emulator images": 4, "114 files to both tools": 1, "sources named like the archive": 1}
